@@ -203,16 +203,16 @@ async def check_stream(ctx: Ctx, kind: str, fns: dict, s: bytes, expected: Any, 
         rec.count("refmodel_checks")
         if kind == "sse":
             if base["iter_sse"] != expected:
-                rec.violation("refmodel:iter_sse", feats, {"stream": s.decode("utf-8", "replace"), "kind": kind,
-                                                            "hex": s.hex(), "points": []},
+                rec.violation("refmodel:iter_sse", feats, {"stream": s.decode("utf-8", "replace"), "kind": kind, "decoder": "iter_sse",
+                                                            "expected": [list(x) for x in expected], "hex": s.hex(), "points": []},
                               f"expected {expected!r} got {base['iter_sse']!r}")
             exp_text = [d for d, *_ in expected if d]
             if base["iter_sse_events_text"] != exp_text:
-                rec.violation("refmodel:iter_sse_events_text", feats, {"hex": s.hex(), "kind": kind, "points": []},
+                rec.violation("refmodel:iter_sse_events_text", feats, {"hex": s.hex(), "kind": kind, "points": [], "decoder": "iter_sse_events_text", "expected": exp_text},
                               f"expected {exp_text!r} got {base['iter_sse_events_text']!r}")
         else:
             if base["iter_ndjson"] != expected:
-                rec.violation("refmodel:iter_ndjson", feats, {"hex": s.hex(), "kind": kind, "points": []},
+                rec.violation("refmodel:iter_ndjson", feats, {"hex": s.hex(), "kind": kind, "points": [], "decoder": "iter_ndjson", "expected": expected},
                               f"expected {expected!r} got {base['iter_ndjson']!r}")
     if base.get("iter_bytes") != s:
         rec.violation("refmodel:iter_bytes", feats, {"hex": s.hex(), "kind": kind, "points": []}, "concat differs")
@@ -296,5 +296,7 @@ def replay(ctx: Ctx, file: dict) -> None:
             ctx.rec.case(f"{name}|{c['hex']}|{c.get('points')}")
             if got != base:
                 ctx.rec.violation(f"chunking:{name}", file.get("features", []), c, f"unsplit {base!r} vs {got!r}")
+            if c.get("expected") is not None and name == c.get("decoder") and json.loads(json.dumps(base, default=list)) != c["expected"]:
+                ctx.rec.violation(f"refmodel:{name}", file.get("features", []), c, f"expected {c['expected']!r} got {base!r}")
 
     asyncio.run(go())
